@@ -11,7 +11,7 @@ CONSTANTS
   MaxPrice = 46
   Prices = {1, 46, 47}
   Modes = {"fresh", "catchup"}
-  Kinds = {"closed", "lost", "won", "other", "xclosed", "created"}
+  Kinds = {"closed", "lost", "won", "other", "xclosed", "created", "xowner", "xownerp", "xdseq"}
   Lax = FALSE
   TimeoutCfgs = {TRUE}
 INVARIANTS TypeOK C13Bid C13Released WonIsOurs Pipeline OneReady ExportDone
